@@ -2,7 +2,11 @@
    never modified by later parsing until the consumer hands it back").  Buffers are abstract
    ids; who may hold an id: the parser (its fields), the consumer (delivered, not yet given
    back), a sync.Pool.  The per-function action lists are translated from ansi/parser.go
-   (gen/GenOwn.v).  Definitions only. *)
+   (gen/GenOwn.v) in two renderings: [own_all] (one merged list per function, conditions
+   ignored) and [own_paths] (one list per control-flow path from entry to a return, so that an
+   early return between the emit and the re-pointing of the field is a call of its own).
+   A call event names the function and either the merged list or one of its paths.
+   Definitions only. *)
 From Vx Require Import base.Prelude model.ParserOwnTypes gen.GenOwn.
 
 Definition bkind_eqb (a b : bkind) : bool :=
@@ -60,12 +64,14 @@ Fixpoint run_fn (s : ost) (acts : list oact) (choices : list (option Z)) : ost *
 
 (* environment events between function calls *)
 Inductive oevent :=
-  | ECall (n : nat) (choices : list (option Z))   (* the n-th function of own_all runs *)
+  | ECall (n : nat) (choices : list (option Z))   (* the n-th function of own_all runs (merged list) *)
+  | ECallPath (n p : nat) (choices : list (option Z))   (* the n-th function runs along its p-th path *)
   | EFinish (id : Z).                             (* the consumer hands a buffer back *)
 
 Definition ostep (s : ost) (e : oevent) : ost * bool :=
   match e with
   | ECall n choices => let '(s', ok, _) := run_fn s (nth n own_all []) choices in (s', ok)
+  | ECallPath n p choices => let '(s', ok, _) := run_fn s (nth p (nth n own_paths []) []) choices in (s', ok)
   | EFinish id =>
       if mem id (consumer s)
       then ({| cur := cur s; outgoing := outgoing s; consumer := remove_id id (consumer s); pool := id :: pool s; next_fresh := next_fresh s |}, true)
@@ -98,3 +104,29 @@ Fixpoint handoff_scan (acts : list oact) (aliased given : list bkind) : bool :=
   | OWrite k :: t => negb (kmem k given) && handoff_scan t aliased given
   end.
 Definition handoff_ok (acts : list oact) : bool := handoff_scan acts [] [].
+
+(* every path of every function follows the discipline *)
+Definition paths_ok (fs : list (list (list oact))) : bool := forallb (forallb handoff_ok) fs.
+
+(* translator consistency: a path is a subsequence of the function's merged list *)
+Definition oact_eqb (a b : oact) : bool :=
+  match a, b with
+  | OAlias k, OAlias k' => bkind_eqb k k'
+  | OEmit, OEmit => true
+  | OReplace k s, OReplace k' s' =>
+      bkind_eqb k k' && match s, s' with Fresh, Fresh | PoolGet, PoolGet | Reslice, Reslice => true | _, _ => false end
+  | OWrite k, OWrite k' => bkind_eqb k k'
+  | _, _ => false
+  end.
+Fixpoint subseq_b (p m : list oact) : bool :=
+  match p, m with
+  | [], _ => true
+  | _ :: _, [] => false
+  | a :: p', b :: m' => if oact_eqb a b then subseq_b p' m' else subseq_b p m'
+  end.
+Fixpoint paths_within (ms : list (list oact)) (fs : list (list (list oact))) : bool :=
+  match ms, fs with
+  | [], [] => true
+  | m :: ms', ps :: fs' => negb (match ps with [] => true | _ => false end) && forallb (fun p => subseq_b p m) ps && paths_within ms' fs'
+  | _, _ => false
+  end.
